@@ -176,7 +176,23 @@ pub fn worker(wi: usize, wn: usize, tier: &str) {
             }
         }
     }
-    vcore::par::worker_emit(&json!({"sequences":st.sequences,"calls":st.calls,"admitted":st.admitted,"refused_tenant":st.refused_tenant,"refused_global":st.refused_global,"windows":st.windows,"states":st.states.iter().collect::<Vec<_>>(),"violations":st.viol.to_json()}));
+    // concurrent clause under ksched, real monotonic clock (see c19c.rs)
+    sc::ctl(sc::CMD_CLOCK_MODE, 1, 0);
+    let bound: usize = if tier == "thorough" { 3 } else { 2 };
+    let mut cst = crate::c19c::CStats::default();
+    for (i, p) in crate::c19c::programs().iter().enumerate() {
+        if i % wn != wi {
+            continue;
+        }
+        crate::c19c::check_program(p, bound, &mut cst);
+    }
+    for (k, v) in cst.viol.map.iter() {
+        for r in &v.1 {
+            st.viol.push((k.clone(), r.clone()));
+        }
+    }
+    vcore::par::worker_emit(&json!({"conc_programs":cst.programs,"conc_executions":cst.executions,"conc_points":cst.points,"conc_outcomes":cst.outcomes.iter().collect::<Vec<_>>(),"conc_refused":cst.refused_calls,"conc_capped":cst.capped,
+        "sequences":st.sequences,"calls":st.calls,"admitted":st.admitted,"refused_tenant":st.refused_tenant,"refused_global":st.refused_global,"windows":st.windows,"states":st.states.iter().collect::<Vec<_>>(),"violations":st.viol.to_json()}));
 }
 
 pub fn run(tier: &str, replay: Option<&str>) -> i32 {
@@ -187,6 +203,19 @@ pub fn run(tier: &str, replay: Option<&str>) -> i32 {
     if let Some(p) = replay {
         let v: Value = serde_json::from_str(&std::fs::read_to_string(p).expect("read")).expect("json");
         let c = &v["case"];
+        if c.get("program").is_some() {
+            let prog: crate::c19c::Prog = serde_json::from_value(c["program"].clone()).unwrap();
+            sc::ctl(sc::CMD_CLOCK_MODE, 1, 0);
+            let mut cst = crate::c19c::CStats::default();
+            crate::c19c::check_program(&prog, 3, &mut cst);
+            if let Some((s, r)) = cst.viol.any_first() {
+                println!("replay: reproduced {s}: {} (schedule {})", r["detail"], r["schedule"]);
+                println!("VIOLATION property=C19 replay={p}");
+                return 1;
+            }
+            println!("replay: no violation in {} executions", cst.executions);
+            return 0;
+        }
         let rates: [u32; 2] = serde_json::from_value(c["rates"].clone()).unwrap();
         let global: Option<u32> = serde_json::from_value(c["global"].clone()).unwrap();
         let seq: Vec<Ev> = serde_json::from_value(c["sequence"].clone()).unwrap();
@@ -211,23 +240,36 @@ pub fn run(tier: &str, replay: Option<&str>) -> i32 {
     let mut rep = Reporter::new("C19");
     let mut tot = std::collections::BTreeMap::new();
     let mut states: BTreeSet<u64> = BTreeSet::new();
+    let mut conc_outcomes: BTreeSet<String> = BTreeSet::new();
     for r in &res {
-        for k in ["sequences", "calls", "admitted", "refused_tenant", "refused_global", "windows"] {
+        for k in ["sequences", "calls", "admitted", "refused_tenant", "refused_global", "windows", "conc_programs", "conc_executions", "conc_points", "conc_refused", "conc_capped"] {
             *tot.entry(k).or_insert(0u64) += r[k].as_u64().unwrap_or(0);
         }
         for s in r["states"].as_array().unwrap() {
             states.insert(s.as_u64().unwrap());
+        }
+        for o in r["conc_outcomes"].as_array().unwrap() {
+            conc_outcomes.insert(o.as_str().unwrap().to_string());
         }
         rep.report_bag(&r["violations"]);
     }
     // concurrent part (schedmc) contributes through its own evidence section when built
     let depth: usize = std::env::var("C19_DEPTH").ok().and_then(|s| s.parse().ok()).unwrap_or(if tier == "thorough" { 10 } else { 8 });
     ev.set("states", states.len() as u64);
-    ev.set("transitions", tot["calls"]);
-    ev.set("traces_validated_against_impl", tot["sequences"]);
-    ev.set("evaluations", tot["sequences"]);
+    ev.set("transitions", tot["calls"] + tot["conc_points"]);
+    ev.set("traces_validated_against_impl", tot["sequences"] + tot["conc_executions"]);
+    ev.set("evaluations", tot["sequences"] + tot["conc_executions"]);
     ev.set("distinct_nontrivial", tot["refused_global"]);
-    ev.set("rule", format!("all 5^{depth} sequences over {{advance 1/4 s, advance 1 s, advance 10 s, call t1, call t2}} for 4 (tenant rates, global rate) configurations on the real RateLimiter under kvshim's logical monotonic clock; oracle: admit decisions equal an exact token bucket in integer quarter-tokens; for EVERY sub-window of every trace admitted <= capacity + rate*length per tenant and globally; a refusal by the global limit leaves the tenant's available tokens unchanged; states = distinct exact model states; non-trivial count = calls refused by the global limit"));
+    ev.set("rule", format!("all 5^{depth} sequences over {{advance 1/4 s, advance 1 s, advance 10 s, call t1, call t2}} for 4 (tenant rates, global rate) configurations on the real RateLimiter under kvshim's logical monotonic clock; oracle: admit decisions equal an exact token bucket in integer quarter-tokens; for EVERY sub-window of every trace admitted <= capacity + rate*length per tenant and globally; a refusal by the global limit leaves the tenant's available tokens unchanged; states = distinct exact model states; non-trivial count = calls refused by the global limit. concurrent clause: {} programs = 6 (tenant rates, global) configurations x 3 warm-up prefixes (fresh limiter: bucket-creation slow path races; warmed: fast path) x 19 thread shapes (all pairs of call lists from {{[a],[b],[a,a],[a,b],[b,a]}} and all triples of single calls), EVERY schedule with <= {} preemptions under ksched at the limiter's own lock operations; after join: per-tenant and global admitted <= burst + rate x measured interval, tokens left in every tenant bucket and in the global bucket (read by draining it through a probe tenant) equal capacity - admitted up to the refill the measured interval allows (a refused request consumed nothing anywhere; nothing refunded twice), and a refused call implies its tenant's or the global burst was used up", tot["conc_programs"], if tier == "thorough" {{ 3 }} else {{ 2 }}));
+    ev.set("concurrent_programs", tot["conc_programs"]);
+    ev.set("concurrent_executions", tot["conc_executions"]);
+    ev.set("concurrent_scheduling_points", tot["conc_points"]);
+    ev.set("concurrent_distinct_outcomes", conc_outcomes.len() as u64);
+    ev.set("concurrent_refused_calls", tot["conc_refused"]);
+    ev.set("concurrent_programs_capped", tot["conc_capped"]);
+    if tot["conc_capped"] > 0 {
+        ev.set("exhaustive_concurrent", false);
+    }
     ev.set("samples", json!([{"rates":[2,3],"global":3,"sequence":["Call(0)","Call(0)","Call(1)","Adv(1)","Call(0)","Call(1)","Adv(4)","Call(1)"]}]));
     ev.set("exhaustive", true);
     ev.set("calls", tot["calls"]);
@@ -236,9 +278,11 @@ pub fn run(tier: &str, replay: Option<&str>) -> i32 {
     ev.set("refused_by_global_limit", tot["refused_global"]);
     ev.set("windows_checked", tot["windows"]);
     ev.assume("time is the kvshim logical CLOCK_MONOTONIC: advances are exact multiples of 1/4 s, so the f64 implementation and the integer model are both exact");
-    ev.assume("the concurrent clause (joint bound under interleaving) is decided by schedmc on the same RateLimiter with the clock frozen");
+    ev.assume("the concurrent clause runs on the real CLOCK_MONOTONIC (the scheduler itself sleeps); its bounds use the interval measured around each execution, as the property's quantifier prescribes, so a slow execution widens the bound instead of raising an alarm");
+    ev.assume("scheduling points are lock operations; TokenBucket state is only touched under its Mutex");
     ev.violations = rep.violations as i64;
     ev.write();
+    println!("C19 {tier}: concurrent programs={} executions={} outcomes={} refused_calls={} capped={}", tot["conc_programs"], tot["conc_executions"], conc_outcomes.len(), tot["conc_refused"], tot["conc_capped"]);
     println!("C19 {tier}: sequences={} calls={} admitted={} refused_tenant={} refused_global={} windows={} states={} violations={}", tot["sequences"], tot["calls"], tot["admitted"], tot["refused_tenant"], tot["refused_global"], tot["windows"], states.len(), rep.violations);
     rep.finish()
 }
